@@ -13,3 +13,5 @@ import DateutilVerif.Properties.C08
 #print axioms C08.tzstr_posix_partial
 #print axioms C08.tzstr_posix_midyear_partial
 #print axioms C08.tzrange_eq_tzstr
+#print axioms C08.tzstr_render_partial
+#print axioms C08.tzstr_string_posix_partial
